@@ -52,6 +52,13 @@ def cases(tier):
     for cls in models.CLASS_NAMES:
         if models.CLASSES[cls]["kind"] in ("f", "o"):
             out.append(dict(cls=cls, par=0, pattern="sf", metric=models.CLASSES[cls]["metrics"][0], init="dist", n=1, extras=["same_name"], named=True))
+    for cls in ("SmoothStronglyConvexFunction", "ConvexFunction", "LipschitzOperator"):
+        # functions / operators with exactly one recorded sample next to the main function (their tables are 1 x 1, or N x 0)
+        out.append(dict(cls=cls, par=0, pattern="sf", metric=models.CLASSES[cls]["metrics"][0], init="dist", n=1, extras=["one_sample_functions"]))
+    for cls in ("SmoothStronglyConvexFunction", "ConvexFunction", "LipschitzOperator", "ConvexIndicatorFunction", "LinearOperator"):
+        # the tables after a solve that was asked for the primal value, and after a solve with a heuristic
+        for mode, dr in (("primal", None), ("dual", "trace"), ("primal", "logdet1")):
+            out.append(dict(cls=cls, par=0, pattern="sf", metric=models.CLASSES[cls]["metrics"][0], init="dist", n=2, c17_mode=mode, c17_dr=dr))
     return out
 
 
@@ -172,8 +179,10 @@ def judge(spec):
     from PEPit.point import Point
     from PEPit.expression import Expression
     from PEPit.function import Function
+    spec = dict(spec)
+    mode, dr = spec.pop("c17_mode", "dual"), spec.pop("c17_dr", None)
     ctx = models.build(spec)
-    r = solving.solve(ctx.pep)
+    r = solving.solve(ctx.pep, mode=mode, dr=dr)
     if r["exc"] is not None or r["value"] is None or r["status"] != "optimal":
         return [], "not-solved"
     nP, nF = Point.counter, Expression.counter
@@ -198,7 +207,7 @@ def judge(spec):
             main.T.oracle(extra_pt)
         else:
             main.oracle(extra_pt)
-        r2 = solving.solve(ctx.pep)
+        r2 = solving.solve(ctx.pep, mode=mode, dr=dr)
         if r2["exc"] is None and r2["value"] is not None and r2["status"] == "optimal":
             nP, nF = Point.counter, Expression.counter
             for f in Function.list_of_functions:
@@ -210,6 +219,37 @@ def judge(spec):
             n += 100
     except Exception as e:
         probs.append(("second-solve-raised:%s" % type(e).__name__, str(e)[:150]))
+    # ---- the set of tables of a function does not depend on how many samples it has (>= 1): it is compared with the set
+    #      exposed by a second object of the same class and parameters sampled three times (built last: it creates leaves)
+    try:
+        for f in list(Function.list_of_functions):
+            if not f.get_is_leaf() or type(f) is Function or type(f).__name__ not in models.CLASSES or not f.list_of_points:
+                continue
+            if getattr(f, "_c17_reference", False):
+                continue
+            cls = type(f).__name__
+            kw = {k: getattr(f, k) for k in ("mu", "L", "M", "D", "beta", "rho") if hasattr(f, k)}
+            if hasattr(f, "partition"):
+                kw["partition"] = f.partition
+            try:
+                g = type(f)(**kw)
+            except Exception:
+                continue
+            g._c17_reference = True
+            for _ in range(3):
+                g.oracle(Point())
+            if cls == "LinearOperator":
+                g.T.oracle(Point())
+                g.T._c17_reference = True
+            g.set_class_constraints()
+            want, got = set(g.tables_of_constraints), set(f.tables_of_constraints)
+            if cls == "LinearOperator" and f.counter is None:
+                continue      # the transposed twin of an operator: its tables are the operator's
+            if want - got:
+                probs.append(("tables-missing:%s" % cls, "%s with %d sample(s) exposes the tables %s, the same class with three samples "
+                              "exposes %s" % (cls, len(f.list_of_points), sorted(got), sorted(want))))
+    except Exception as e:
+        probs.append(("table-set-comparison-raised:%s" % type(e).__name__, str(e)[:150]))
     seen, out = set(), []
     for k, m in probs:
         if k not in seen:
